@@ -91,6 +91,15 @@ func GenStations(r *core.Rand, maxMsgs, size int) (a, b StationPlan) {
 			}
 			s.Msgs = append(s.Msgs, GenMsg(r, used, call, peer, sz+1))
 		}
+		// MIDs are case-sensitive: now and then two messages differ in letter case only
+		if len(s.Msgs) >= 2 && r.Chance(0.08) {
+			src := s.Msgs[r.Intn(len(s.Msgs))].MID
+			v := caseVariant(r, src)
+			if v != src && !used[v] {
+				used[v] = true
+				s.Msgs[r.Intn(len(s.Msgs))].MID = v
+			}
+		}
 		s.Batched = r.Bool()
 		s.Gzip = r.Chance(0.25)
 		if r.Chance(0.3) {
@@ -152,4 +161,16 @@ func sizeFor(tier string, r *core.Rand) int {
 func genC01(tier string, r *core.Rand) Scenario {
 	a, b := GenStations(r, 22, sizeFor(tier, r))
 	return Scenario{A: a, B: b, Sessions: []SessionPlan{{AMaster: r.Bool(), Link: GenLink(r)}}}
+}
+
+func caseVariant(r *core.Rand, mid string) string {
+	b := []byte(mid)
+	changed := false
+	for i, c := range b {
+		if c >= 'A' && c <= 'Z' && (r.Bool() || !changed) {
+			b[i] = c + 32
+			changed = true
+		}
+	}
+	return string(b)
 }
